@@ -928,7 +928,39 @@ func main() {
 	defer out.Flush()
 	enc := json.NewEncoder(out)
 	if len(os.Args) > 1 && os.Args[1] == "fields" {
-		_ = enc.Encode(map[string]any{"refl_fields": reflFields()})
+		var sk []string
+		for k := range skip {
+			sk = append(sk, k)
+		}
+		sort.Strings(sk)
+		var kinds []string
+		for _, t := range meta.VerifCommandTypes() {
+			kinds = append(kinds, t.String())
+		}
+		sort.Strings(kinds)
+		_ = enc.Encode(map[string]any{"refl_fields": reflFields(), "dump_skip": sk, "registered_commands": kinds})
+		return
+	}
+	if len(os.Args) > 1 && os.Args[1] == "model" {
+		// cases for the Coq hand model (model.go)
+		n := 60
+		if len(os.Args) > 2 {
+			n, _ = strconv.Atoi(os.Args[2])
+		}
+		for rep := 0; rep < 6; rep++ { // repeated: every run of a case draws fresh map iteration orders
+			for _, c := range modelCorpus() {
+				if rep > 0 {
+					c.MName = fmt.Sprintf("%s#%d", c.MName, rep)
+				}
+				_ = enc.Encode(c)
+			}
+		}
+		r := gen.FromEnv(1515)
+		for i := 0; i < n; i++ {
+			rr := r.Fork()
+			cf := Conf{PtPer: rr.Range(1, 2), NoInc: rr.Chance(1, 4), NoClean: rr.Chance(1, 3)}
+			_ = enc.Encode(runModelCase(fmt.Sprintf("mgen-%d", i), cf, rr.Range(10, 36), rr, nil))
+		}
 		return
 	}
 	if len(os.Args) > 2 && os.Args[1] == "replay" {
